@@ -360,6 +360,8 @@ def run(ctx, report):
     from .c06 import compose_fold_rule
     ea9 = ctx.mod('eval_abs')
     compose_fold_rule(R9, ea9, ea9.methods('eval_abs').get('eval_ExprCompose'))
+    from .c06 import mem_read_fold_rule
+    mem_read_fold_rule(R9, ea9, ea9.methods('eval_abs'))
 
     R3 = report.rule('C07.D3', 'evaluation never short-cuts on a flag that is not machine state', floor=1)
     ee = methods.get('eval_expr')
